@@ -214,6 +214,8 @@ def main(argv):
       tot['completed'] += r['completed']
       tot['queries'] += r['queries']
       tot['solver_s'] += r['solver_s']
+      for m_ in r.get('infra', []):
+        infra.append('%s: %s' % (hname, m_))
       for s, nt in r['sigs'].items():
         sigs[s] = sigs.get(s, False) or nt
       for s in r['samples']:
